@@ -39,6 +39,8 @@ func checkC04(r *Run) {
 	// the held lines' level byte round-trips (C15's framing rules)
 	ruleTLWPaths(r, p)
 	ruleTLWFrame(r, p)
+	ruleMultiKeepsEveryWriter(r, p, "FANOUT") // a writer dropped by the constructor never sees an event, whatever its level
+	ruleGlobalPanicFatalDelegate(r, p, "GATE")
 	ruleLevelTables(r, p)
 	r.Floor("A9", 60)
 	r.Floor("GATE", 4)
